@@ -1,6 +1,7 @@
 """Contracts for plugins/fcp_dbc/fcp_dbc/dbc_writer.py (C05, C14)."""
 
-INLINE = ["fcp.specs.type:NumericType.is_signed", "fcp.specs.type:EnumType.is_signed", "fcp.specs.type:NumericType.is_float",
+INLINE = ["fcp.specs.impl:Impl.get_field", "fcp.encoding:make_encoder", "fcp.encoding:PackedEncoderContext.with_unroll_arrays",
+          "fcp.specs.type:NumericType.is_signed", "fcp.specs.type:EnumType.is_signed", "fcp.specs.type:NumericType.is_float",
           "fcp.specs.type:NumericType.is_double"]
 
 
@@ -33,3 +34,59 @@ def _make_signals(encoding: "seq[ref:Value]", type: "str") -> "tuple[seq[ref:Dbc
     loop(0, over="encoding",
          invariant=lambda it: len(signals) == it and forall(0, it, lambda i: sig_ok(signals[i], encoding[i], encoding))
          and dlc == (0 if it == 0 else (piece_end(encoding[it - 1]) + 7) // 8))
+
+
+@assumed("ext:cantools.database.can.message.Message")
+def CanMessage(frame_id: "int", name: "str", length: "int", signals: "seq[ref:DbcSignal]", senders: "any" = None) -> "ref:DbcMessage":
+    note("cantools Message: the object (and the BO_ line printed from it) carries exactly the constructor arguments")
+    ensures(result.frame_id == frame_id and result.name == name and result.length == length and result.signals == signals)
+
+
+@assumed("ext:cantools.database.can.node.Node")
+def CanNode(name: "dyn") -> "ref:DbcNode":
+    ensures(result.name == name)
+
+
+@assumed("ext:cantools.database.can.database.Database")
+def CanDatabase(messages: "seq[dyn]", nodes: "seq[ref:DbcNode]") -> "ref:DbcDatabase":
+    ensures(result.messages == messages and result.nodes == nodes)
+
+
+@assumed("ext:DbcDatabase.as_dbc_string")
+def as_dbc_string(self: "ref:DbcDatabase", sort_signals: "any" = None) -> "str":
+    note("cantools prints the database; an independent reader recovers it from the text (db_of_text is that reader, abstractly)")
+    ensures(db_of_text(result) == self)
+
+
+@contract("fcp.specs.v2:FcpV2.get_matching_impls")
+def get_matching_impls(self: "ref:FcpV2", protocol: "str") -> "seq[ref:Impl]":
+    note("a generator: modelled as the list of the yielded values (no side effects between the yields)")
+    ensures(result == matching(self.impls, protocol, len(self.impls)))
+    option("loop0_locals", {"__yields__": "seq[ref:Impl]"})
+    loop(0, over="self.impls", invariant=lambda it: __yields__ == matching(self.impls, protocol, it))
+
+
+@contract("fcp_dbc.dbc_writer:write_dbc")
+def write_dbc(fcp: "ref:FcpV2") -> "result[seq[tuple[str,str]],str]":
+    note("C14: a binding whose struct has no static packed size, or that exceeds 64 bits, makes the call raise ValueError (nothing is "
+         "returned, so nothing is emitted); a binding without id gives Err.  C05: one text per bus, in order of first use, whose "
+         "database holds exactly the messages of the bindings on that bus, in order, with their frame ids and names")
+    requires(forall(0, len(can_impls(fcp)), lambda k: wf_struct(fcp, can_impls(fcp)[k].type)))
+    # the general verifier rejects structs without fields before any generator runs (C09/C10): every layout has a leaf
+    requires(forall(0, len(can_impls(fcp)), lambda k: len(layout_names(fcp, can_impls(fcp)[k])) >= 1))
+    may_raise(ValueError)
+    ensures(result.is_ok() or result.is_err())
+    ensures(implies(result.is_ok(), forall(0, len(can_impls(fcp)), lambda k: impl_fits(fcp, can_impls(fcp)[k]))))
+    ensures(implies(result.is_ok(), len(result.unwrap()) == len(bus_keys(can_impls(fcp), len(can_impls(fcp))))))
+    option("no_unfold", ["wf_type", "all_fixed", "struct_names", "field_names", "arr_names", "type_width", "fixed_size", "first_struct_from",
+                         "first_signal_from", "sorted_fields", "enum_width"])
+    fresh("b0", "str")
+    note("b0 is an arbitrary bus name (a universally quantified constant of the proof): the clause below holds for every b0")
+    ensures(implies(result.is_ok(), forall(0, len(result.unwrap()), lambda j:
+            result.unwrap()[j][0] == bus_keys(can_impls(fcp), len(can_impls(fcp)))[j]
+            and implies(result.unwrap()[j][0] == b0,
+                        group_ok(db_of_text(result.unwrap()[j][1]).messages, fcp, can_impls(fcp), len(can_impls(fcp)), b0)))))
+    loop(0, over="fcp.get_matching_impls('can')", modifies=[buses.keys, buses.messages, buses.nodes, encoder.encoding, encoder.bitstart, encoder.gnames],
+         invariant=lambda it: buses.keys == bus_keys(can_impls(fcp), it)
+         and forall(0, it, lambda k: impl_fits(fcp, can_impls(fcp)[k]))
+         and group_ok(buses.messages[b0], fcp, can_impls(fcp), it, b0))
